@@ -5,7 +5,7 @@ CONSTANTS
   RPCs <- Two
   CScript <- G_two
   SScript <- GS_two
-  Faults <- AllFaults
+  Faults <- AllFaults4
   MaxFaults = 1
   Stepped = TRUE
   Dir = "fwd"
